@@ -15,7 +15,7 @@ from . import c01, c02
 
 PROPERTY = "C03"
 LEVEL = "exploration"
-TECHNIQUE = "property-based testing (Hypothesis): CSR validity predicate + differential between the four back-ends' Jacobian text + pattern file + subscript bounds; a fraction of cases compiled with ASan/UBSan against exactly-sized buffers and compared with the text reading"
+TECHNIQUE = "property-based testing (Hypothesis): CSR validity predicate + differential between the four back-ends' Jacobian text + pattern file + subscript bounds; a fraction of cases compiled with ASan/UBSan against exactly-sized buffers and compared with the text reading; a fraction of the cases executes the cuSPARSE kernels on a batch of cells (host emulation of the CUDA launch) and compares every cell with the dense back-end"
 RULE = (
     "C01/C02 networks (incl. the empty network, isolated required species, with/without the thermal equation, with "
     "modifiers) rendered for dense, sparse, cusparse and rosenbrock4, with the Jacobian-pattern file. Validity "
@@ -26,7 +26,7 @@ RULE = (
     "coordinates. Non-trivial = NNZ>=1 and (an empty row or a row with >=2 entries)."
 )
 ASSUMPTIONS = [
-    "cuSPARSE observed as text (InitJac arrays + kernel data[])",
+    "cuSPARSE back-end: kernel text for every case; for a fraction of the cases the rendered .cu files are compiled as C++ against a host emulation of the CUDA launch (vtlib/cxx/shim/vt_cuda.h, launch syntax rewritten mechanically) and run on 2-5 cells",
     "thorough tier repeats the layout under ASan/UBSan with exactly-sized buffers through the compile-and-run harness (vtlib.cxx) when available",
 ]
 
